@@ -360,10 +360,16 @@ theorem map_shift_none (vs : List (V3 ℝ)) (c : V3 ℝ) : (vs.map fun v => v + 
 theorem centred_ne_nil {vs : List (V3 ℝ)} (h : vs ≠ []) (c : V3 ℝ) : Spec.centred vs c ≠ [] := by
   simpa [Spec.centred] using h
 
-theorem cen_centred {M : Meas ℝ} (hM : Spec.Equivariant M) {vs : List (V3 ℝ)} (h : vs ≠ []) :
+theorem Spec.Equivariant.at {M : Meas ℝ} (hM : Spec.Equivariant M) {vs : List (V3 ℝ)} (h : vs ≠ []) :
+    Spec.EquivariantAt M vs := fun t => hM vs t h
+
+theorem cen_centred_at {M : Meas ℝ} {vs : List (V3 ℝ)} (hM : Spec.EquivariantAt M vs) :
     M.cen (Spec.centred vs (M.cen vs)) = V3.zero := by
-  rw [← map_shift_zero, hM vs _ h]
+  rw [← map_shift_zero, hM]
   apply V3.ext' <;> simp
+
+theorem cen_centred {M : Meas ℝ} (hM : Spec.Equivariant M) {vs : List (V3 ℝ)} (h : vs ≠ []) :
+    M.cen (Spec.centred vs (M.cen vs)) = V3.zero := cen_centred_at (hM.at h)
 
 /-- the vertex mean (a translation-equivariant centre, the centroid of centrally symmetric sets) -/
 noncomputable def vertexMean (vs : List (V3 ℝ)) : V3 ℝ := V3.sdiv (V3.sum vs) (vs.length : ℝ)
@@ -419,10 +425,14 @@ theorem centre_cached_cache (M : Meas ℝ) (vs : List (V3 ℝ)) :
   simp only [setCentroid, centroidOf, map_shift_zero]
 
 /-- the state a polytope is left in after `centre; …; restore` is the state it started in -/
+theorem restore_recomputed_at {M : Meas ℝ} {vs : List (V3 ℝ)} (hM : Spec.EquivariantAt M vs) (c0 : V3 ℝ) :
+    (setCentroid M .recomputed (setCentroid M .recomputed ⟨vs, c0⟩ V3.zero) (M.cen vs)).verts = vs := by
+  simp only [setCentroid, centroidOf, map_shift_zero, cen_centred_at hM, map_shift_back]
+
 theorem restore_recomputed {M : Meas ℝ} (hM : Spec.Equivariant M) {vs : List (V3 ℝ)} (h : vs ≠ [])
     (c0 : V3 ℝ) :
-    (setCentroid M .recomputed (setCentroid M .recomputed ⟨vs, c0⟩ V3.zero) (M.cen vs)).verts = vs := by
-  simp only [setCentroid, centroidOf, map_shift_zero, cen_centred hM h, map_shift_back]
+    (setCentroid M .recomputed (setCentroid M .recomputed ⟨vs, c0⟩ V3.zero) (M.cen vs)).verts = vs :=
+  restore_recomputed_at (hM.at h) c0
 
 theorem restore_cached {M : Meas ℝ} (hM : Spec.Equivariant M) {vs : List (V3 ℝ)} (h : vs ≠ []) :
     (setCentroid M .cached (setCentroid M .cached ⟨vs, M.cen vs⟩ V3.zero) (M.cen vs)).verts = vs := by
